@@ -1,4 +1,7 @@
 import CoxeterVerif.Lemmas.Tabulated
+import CoxeterVerif.Lemmas.TabulatedLookup
+import CoxeterVerif.Lemmas.TabulatedMeaning
+import CoxeterVerif.Lemmas.TabulatedHull
 import CoxeterVerif.Generated.Checks
 /-!
   # C18 — every tabulated family entry is the solid its name says
@@ -14,6 +17,11 @@ import CoxeterVerif.Generated.Checks
     assembled into `∀ e ∈ table, …`.  The tolerances (10⁻⁹) are part of the predicates.
     The face lists are the ones the implementation built when the tables were generated; they
     are a certificate: the predicates re-verify them from scratch.
+  * **Meaning theorems**: what those Bool predicates say, as Prop-level statements (combinatorics of the
+    face list; real geometry of the vertices, `Tab.toV` = coordinates in units of 10⁻¹⁸), proved once
+    for EVERY entry in `Lemmas/TabulatedBits|Real|Real2|Real3|Meaning.lean` and instantiated here on the
+    tables (`*_entries_meaning`): every `decide +kernel` fact lifts to a statement about the tabulated
+    coordinates.
 -/
 open Tab
 set_option maxRecDepth 100000
@@ -72,7 +80,60 @@ theorem iter_eq_data_map (f : Family V) (h : namesNodup f.names = true) :
   simp only [Function.comp]
   rw [known_name_getShape f h k spec hkv]
 
+/-! ### histories: several families in one process
+
+`World`: the shipped singletons and any user-made `TabulatedGSDShapeFamily`.  The code keeps no cache (neither
+per instance nor on the class), so the model's step returns the world unchanged, and therefore: -/
+
+/-- no history changes the world of families -/
+theorem history_leaves_world (w : World V) (hist : List Step) : (w.run hist).1 = w :=
+  World.run_fst w hist
+
+/-- **the answer to a query does not depend on what any family was asked before** -/
+theorem answer_history_independent (w : World V) (hist : List Step) (s : Step) :
+    ((w.run hist).1.step s).2 = (w.step s).2 := by
+  rw [World.run_fst]
+
+/-- **a name that is not in a family's own table raises `KeyError` after ANY history** — whether or not
+    another family of the process has (and has already built) a record of that name -/
+theorem foreign_name_keyerror_after_history (w : World V) (hist : List Step) (i : Nat) (f : Family V)
+    (hf : w.fams[i]? = some f) (name : String) (h : name ∉ f.names) :
+    ((w.run hist).1.step (.get i name)).2 = [.error "KeyError"] := by
+  rw [World.run_fst]
+  simp only [World.step, hf]
+  rw [unknown_name_keyerror f name h]
+
+/-- **a family answers from ITS OWN table after any history**: a name it lists gives the shape built from the
+    record stored under that name in this family, whatever other families store under the same name -/
+theorem own_record_after_history (w : World V) (hist : List Step) (i : Nat) (f : Family V)
+    (hf : w.fams[i]? = some f) (hn : namesNodup f.names = true) (name : String) (spec : GsdSpec V)
+    (hm : (name, spec) ∈ f.data) :
+    ((w.run hist).1.step (.get i name)).2 = [fromGsd spec] := by
+  rw [World.run_fst]
+  simp only [World.step, hf]
+  rw [known_name_getShape f hn name spec hm]
+
+/-- iteration after any history is still the family's own table in order -/
+theorem iter_after_history (w : World V) (hist : List Step) (i : Nat) (f : Family V)
+    (hf : w.fams[i]? = some f) :
+    ((w.run hist).1.step (.iter i)).2 = f.names.map f.getShape := by
+  rw [World.run_fst]
+  simp only [World.step, hf]
+  rw [iter_eq_names_map, List.map_map]
+  rfl
+
 end model
+
+/-- two tables that use the name "Cube" for different records, a third that does not have it: each answers
+    from its own table, in any order of queries -/
+example :
+    let w : World Nat := ⟨[⟨[("Cube", { type := some "ConvexPolyhedron", verts := 1 })]⟩,
+                            ⟨[("Cube", { type := some "ConvexPolyhedron", verts := 2 })]⟩,
+                            ⟨[("Ball", { type := some "Sphere", verts := 3 })]⟩]⟩
+    (w.run [.get 0 "Cube", .iter 1, .get 2 "Cube", .get 1 "Cube", .get 0 "Cube"]).2
+      = [[.ok (.convexPolyhedron 1)], [.ok (.convexPolyhedron 2)], [.error "KeyError"],
+         [.ok (.convexPolyhedron 2)], [.ok (.convexPolyhedron 1)]] := by
+  decide
 
 /-- hypotheses of the above are satisfiable on a non-trivial family: a two-record table, one of
     them not a polyhedron -/
@@ -113,6 +174,41 @@ theorem stored_doi_returned (m : DoiMaps) (store : List (String × List RepoItem
   obtain ⟨v, hv, hm⟩ := dictGet_isOk_of_mem store doi h
   exact ⟨v, by unfold keyedGet; rw [hv], hm⟩
 
+/-- **unknown DOIs after any history of lookups**: the dictionary only ever stores known DOIs, so a key that
+    is not EXACTLY a key of `_DOI_TO_FILE` / `_DOI_TO_FAMILY` raises `KeyError` (and is not stored) whatever
+    was looked up before through the same dictionary -/
+theorem unknown_doi_keyerror_after_history (m : DoiMaps) (hist : List String) (doi : String)
+    (h : doi ∉ knownDois m) :
+    keyedGet m (keyedRun m [] hist).2 doi = (.error "KeyError", (keyedRun m [] hist).2) := by
+  have hstore := keyedRun_store_known m [] hist (by intro k hk; cases hk)
+  unfold knownDois at h
+  rw [List.mem_append, not_or] at h
+  refine unknown_doi_keyerror m _ doi ?_ h.1 h.2
+  intro hmem
+  have := hstore doi hmem
+  unfold knownDois at this
+  rw [List.mem_append] at this
+  rcases this with h' | h'
+  · exact h.1 h'
+  · exact h.2 h'
+
+/-- the dictionary never lists an unknown DOI -/
+theorem doi_store_only_known (m : DoiMaps) (hist : List String) :
+    ∀ k ∈ (keyedRun m [] hist).2.map Prod.fst, k ∈ knownDois m :=
+  keyedRun_store_known m [] hist (by intro k hk; cases hk)
+
+/-- strings that merely CONTAIN a known DOI are unknown keys: another article number, a supplement, a
+    resolver URL, a `doi:` prefix, another case, surrounding white space -/
+example : ∀ doi ∈ ["10.1126/science.12208690", "10.1126/science.1220869.sm", "110.1126/science.1220869",
+      "doi:10.1126/science.1220869", "https://doi.org/10.1126/science.1220869", "10.1126/SCIENCE.1220869",
+      " 10.1126/science.1220869", "10.1021/nn204012y ", "10.1103/physrevx.4.011024"],
+    keyedGet Tables.doiMaps (keyedRun Tables.doiMaps [] ["10.1126/science.1220869", "10.1021/nn204012y"]).2 doi
+      = (.error "KeyError", (keyedRun Tables.doiMaps [] ["10.1126/science.1220869", "10.1021/nn204012y"]).2) := by
+  intro doi hd
+  apply unknown_doi_keyerror_after_history
+  revert doi
+  decide
+
 /-- the maps of the present /repo: every listed DOI loads a non-empty list of families and stores
     it; the science repository is one tabulated family -/
 theorem known_dois_load :
@@ -132,8 +228,11 @@ theorem all_mem {p : Entry → Bool} {t : List Entry} (h : t.all p = true) : ∀
 
 /-- the hand-entered textbook rows are internally consistent (Euler, census sums) -/
 theorem textbook_consistent :
-    (Textbook.platonic ++ Textbook.archimedean ++ Textbook.catalan ++ Textbook.johnson).all
-      Textbook.Solid.consistent = true := by
+    (Textbook.platonic ++ Textbook.archimedean ++ Textbook.catalan ++ Textbook.johnson
+        ++ Textbook.johnsonByName ++ Textbook.prismAntiprism ++ Textbook.pyramidDipyramid
+        ++ Textbook.otherSolids).all Textbook.Solid.consistent = true
+      ∧ Textbook.johnsonNames.length = 92 ∧ namesNodup Textbook.johnsonNames = true
+      ∧ (Textbook.johnson.all fun s => !s.faces.isEmpty) = true := by
   decide +kernel
 
 /-- sizes stated by the property -/
@@ -151,12 +250,15 @@ theorem names_nodup :
         (fun t => namesNodup ((familyOf t).names)) = true := by
   decide +kernel
 
-/-- the tables are exactly the 5 + 13 + 13 textbook solids and the Johnson numbers J1 … J92 -/
+/-- the tables are exactly the 5 + 13 + 13 textbook solids, the Johnson numbers J1 … J92, the 16 prisms and
+    antiprisms and the 6 pyramids and dipyramids of the hand-entered lists -/
 theorem tables_cover_textbook :
     coversTextbook Textbook.platonic Tables.platonic = true
       ∧ coversTextbook Textbook.archimedean Tables.archimedean = true
       ∧ coversTextbook Textbook.catalan Tables.catalan = true
-      ∧ coversJohnson Tables.johnson = true := by
+      ∧ coversJohnson Tables.johnson = true
+      ∧ coversTextbook Textbook.prismAntiprism Tables.prismAntiprism = true
+      ∧ coversTextbook Textbook.pyramidDipyramid Tables.pyramidDipyramid = true := by
   decide +kernel
 
 /-- **Platonic.** closed convex surface on its vertices, textbook counts, unit volume, equal edges
@@ -187,26 +289,31 @@ theorem catalan_entries : ∀ e ∈ Tables.catalan,
 /-- **Johnson.** closed convex surface, equal edges and regular faces; and the vertex, edge and
     face counts of the solid with that Johnson number -/
 theorem johnson_entries : ∀ e ∈ Tables.johnson,
-    polyhedronOk e = true ∧ regularOk e = true ∧ johnsonCountsOk e = true := by
+    polyhedronOk e = true ∧ regularOk e = true ∧ johnsonCountsOk e = true ∧ johnsonNameOk e = true := by
   intro e he
   have h := all_mem Tables.johnson_ok e he
   simpa only [johnsonOk, Bool.and_eq_true, and_assoc] using h
 
-/-- **prisms/antiprisms, pyramids/dipyramids.** closed convex surface on the entry's vertices -/
-theorem prism_pyramid_entries : ∀ e ∈ Tables.prismAntiprism ++ Tables.pyramidDipyramid,
-    polyhedronOk e = true := by
-  intro e he
-  rcases List.mem_append.mp he with h | h
-  · exact all_mem Tables.prismAntiprism_ok e h
-  · exact all_mem Tables.pyramidDipyramid_ok e h
+/-- **prisms/antiprisms, pyramids/dipyramids.** closed convex surface on the entry's vertices, and the counts
+    and face census of the hand-entered row of that name -/
+theorem prism_pyramid_entries :
+    (∀ e ∈ Tables.prismAntiprism, polyhedronOk e = true ∧ textbookOk Textbook.prismAntiprism e = true)
+      ∧ (∀ e ∈ Tables.pyramidDipyramid, polyhedronOk e = true ∧ textbookOk Textbook.pyramidDipyramid e = true) := by
+  constructor
+  · intro e he
+    have h := all_mem Tables.prismAntiprism_ok e he
+    simpa only [prismAntiprismOk, Bool.and_eq_true] using h
+  · intro e he
+    have h := all_mem Tables.pyramidDipyramid_ok e he
+    simpa only [pyramidDipyramidOk, Bool.and_eq_true] using h
 
 /-- **repository.** closed convex surface, and an entry that cites a family has the vertex set of
     the family's entry of that name -/
 theorem science_entries : ∀ e ∈ Tables.science1220869,
-    polyhedronOk e = true ∧ sourceOk Tables.bySource e = true := by
+    polyhedronOk e = true ∧ sourceOk Tables.bySource e = true ∧ repoTextbookOk e = true := by
   intro e he
   have h := all_mem Tables.science1220869_ok e he
-  simpa only [repositoryOk, Bool.and_eq_true] using h
+  simpa only [repositoryOk, Bool.and_eq_true, and_assoc] using h
 
 /-- every entry of every table builds a `ConvexPolyhedron` on exactly its vertices through the
     model of `get_shape` -/
@@ -225,8 +332,8 @@ theorem every_entry_builds :
     · exact (archimedean_entries e he).1
     · exact (catalan_entries e he).1
     · exact (johnson_entries e he).1
-    · exact prism_pyramid_entries e (List.mem_append_left _ he)
-    · exact prism_pyramid_entries e (List.mem_append_right _ he)
+    · exact (prism_pyramid_entries.1 e he).1
+    · exact (prism_pyramid_entries.2 e he).1
     · exact (science_entries e he).1
   have hty : e.type = "ConvexPolyhedron" := by
     simp only [polyhedronOk, Bool.and_eq_true] at hp
@@ -250,3 +357,102 @@ theorem corrupted_cube_rejected :
        platonicOk c && !(convexOk moved && unitVolumeOk moved && regularOk moved)
          && !(closedOriented flipped)) = true := by
   decide +kernel
+
+/-! ## Meaning theorems: the kernel-evaluated facts as statements about the tabulated coordinates
+
+`PolyhedronCert e`: the face list is a closed consistently oriented surface on exactly the vertices (every
+directed edge once, its reverse exactly once), `2V + 2F = 2E + 4`, every face has a non-zero Newell normal and is
+planar within 10⁻⁹, every vertex is on the inner side of every face plane within 10⁻⁹, `Σ det > 0`.
+`MatchesRow s e`: the counts and face census of the hand-entered row.  `UnitVolume`: `|Σdet/6 − 1| ≤ 10⁻⁹` in
+true units.  `RegularCert`: squared edge lengths (and short diagonals per face) equal within 2·10⁻⁹ relative.
+`Insphere`: all face planes at one positive distance from the centroid.  (Definitions and the generic proofs
+`…Ok e = true → …` for every entry: `Lemmas/TabulatedMeaning.lean`.) -/
+
+theorem platonic_entries_meaning : ∀ e ∈ Tables.platonic,
+    PolyhedronCert e ∧ (∃ s ∈ Textbook.platonic, s.name = e.name ∧ MatchesRow s e) ∧ UnitVolume e
+      ∧ RegularCert e :=
+  fun e he => platonicOk_meaning e (all_mem Tables.platonic_ok e he)
+
+theorem archimedean_entries_meaning : ∀ e ∈ Tables.archimedean,
+    PolyhedronCert e ∧ (∃ s ∈ Textbook.archimedean, s.name = e.name ∧ MatchesRow s e) ∧ UnitVolume e
+      ∧ RegularCert e :=
+  fun e he => archimedeanOk_meaning e (all_mem Tables.archimedean_ok e he)
+
+theorem catalan_entries_meaning : ∀ e ∈ Tables.catalan,
+    PolyhedronCert e ∧ (∃ s ∈ Textbook.catalan, s.name = e.name ∧ MatchesRow s e) ∧ UnitVolume e
+      ∧ Insphere e :=
+  fun e he => catalanOk_meaning e (all_mem Tables.catalan_ok e he)
+
+theorem johnson_entries_meaning : ∀ e ∈ Tables.johnson,
+    PolyhedronCert e ∧ RegularCert e ∧ JohnsonRow e
+      ∧ ∃ n, johnsonNumber e.short = some n ∧ johnsonName n = some e.name :=
+  fun e he => johnsonOk_meaning e (all_mem Tables.johnson_ok e he)
+
+theorem prism_antiprism_entries_meaning : ∀ e ∈ Tables.prismAntiprism,
+    PolyhedronCert e ∧ ∃ s ∈ Textbook.prismAntiprism, s.name = e.name ∧ MatchesRow s e :=
+  fun e he => prismAntiprismOk_meaning e (all_mem Tables.prismAntiprism_ok e he)
+
+theorem pyramid_dipyramid_entries_meaning : ∀ e ∈ Tables.pyramidDipyramid,
+    PolyhedronCert e ∧ ∃ s ∈ Textbook.pyramidDipyramid, s.name = e.name ∧ MatchesRow s e :=
+  fun e he => pyramidDipyramidOk_meaning e (all_mem Tables.pyramidDipyramid_ok e he)
+
+/-- **repository.** every record is a closed convex polyhedron; a record that cites a family has (within
+    10⁻⁹) the vertex set of the cited record; every record has its specification row -/
+theorem science_entries_meaning : ∀ e ∈ Tables.science1220869,
+    PolyhedronCert e ∧ CitesFamily Tables.bySource e ∧ RepoRow e :=
+  fun e he => repositoryOk_meaning Tables.bySource e (all_mem Tables.science1220869_ok e he)
+
+/-- the lengths themselves (not only their squares) agree: every edge of a Platonic, Archimedean or Johnson entry
+    has the length of the first edge within 2·10⁻⁹ relative -/
+theorem regular_entries_edge_lengths :
+    ∀ e ∈ Tables.platonic ++ Tables.archimedean ++ Tables.johnson,
+      ∃ a t, (dirEdges e).map (sqDistV e.verts) = a :: t ∧ 0 < a
+        ∧ ∀ b ∈ t, |Real.sqrt b - Real.sqrt a| ≤ 2 / 10^9 * Real.sqrt a := by
+  intro e he
+  have hr : RegularCert e := by
+    rcases List.mem_append.mp he with h | h
+    · rcases List.mem_append.mp h with h | h
+      · exact (platonic_entries_meaning e h).2.2.2
+      · exact (archimedean_entries_meaning e h).2.2.2
+    · exact (johnson_entries_meaning e h).2.1
+  exact hr.edges.sqrt
+
+/-- **the convex hull of the vertices of every entry of every table lies on the inner side of every face plane**
+    of that entry (within 10⁻⁹): for all weights `wᵢ ≥ 0`, `Σwᵢ = 1`, the point `Σ wᵢvᵢ` has signed distance at most
+    `10⁹` (units of 10⁻¹⁸) from the plane of every face -/
+theorem every_entry_hull_inside :
+    ∀ t ∈ [Tables.platonic, Tables.archimedean, Tables.catalan, Tables.johnson, Tables.prismAntiprism,
+      Tables.pyramidDipyramid, Tables.science1220869], ∀ e ∈ t,
+      ∀ f ∈ e.faces, ∃ p0 rest, facePts e f = p0 :: rest ∧
+        ∀ ws : List ℝ, ws.length = e.verts.length → (∀ w ∈ ws, 0 ≤ w) → ws.sum = 1 →
+          V3.dot (newellV ((p0 :: rest).map toV)) (comb ws (e.verts.map toV) - toV p0)
+            ≤ 10^9 * Real.sqrt (V3.normSq (newellV ((p0 :: rest).map toV))) := by
+  intro t ht e he
+  have hp : PolyhedronCert e := by
+    simp only [List.mem_cons, List.not_mem_nil, or_false] at ht
+    rcases ht with rfl | rfl | rfl | rfl | rfl | rfl | rfl
+    · exact (platonic_entries_meaning e he).1
+    · exact (archimedean_entries_meaning e he).1
+    · exact (catalan_entries_meaning e he).1
+    · exact (johnson_entries_meaning e he).1
+    · exact (prism_antiprism_entries_meaning e he).1
+    · exact (pyramid_dipyramid_entries_meaning e he).1
+    · exact (science_entries_meaning e he).1
+  exact hp.convex.hull_inside
+
+/-- the bit-set predicates are their quadratic reference definitions (formerly compared per run only) -/
+theorem bitset_predicates_eq_reference (e : Entry) :
+    usesExactlyVerts e = usesExactlyVertsRef e
+      ∧ (usesExactlyVerts e = true → closedOriented e = closedOrientedRef e) :=
+  ⟨usesExactlyVerts_eq_ref e, closedOriented_eq_ref e⟩
+
+/-- **an entry without a specification row fails its obligation** (so a new or renamed table entry breaks the
+    generated proof of its chunk, which sends the check into the failing-input search): whatever its geometry, an
+    entry whose name is in none of the hand-entered rows satisfies none of the per-table predicates that demand
+    a row -/
+theorem entry_without_row_rejected (rows : List Textbook.Solid) (e : Entry) (h : ∀ s ∈ rows, s.name ≠ e.name) :
+    textbookOk rows e = false :=
+  textbookOkAs_no_row rows e.name e h
+
+example : platonicOk { name := "Hexahedron", type := "ConvexPolyhedron", verts := [], faces := [] } = false := by
+  decide
